@@ -1434,6 +1434,27 @@ def r52_zone_default_precedence(ctx):
     if not n_paths:
         rep.error("R52", "process_time_zone_info: no returning path read")
         return
+    # an *empty* mapping (a strptime format without %z) is "no zone given"
+    # just as None is: the assumed offset is applied on a path where the
+    # argument was a mapping
+    prm = f.call_params[0] if f.call_params else None
+    if prm:
+        applied_for_mapping = False
+        for p in explore(f.node.body):
+            if p.outcome != "return":
+                continue
+            if p.decisions.get("%s is None" % prm) is False and any(
+                    "assumed_time_zone" in U(v) for k, v in p.env.items()
+                    if k.startswith("@")):
+                applied_for_mapping = True
+        rep.check(applied_for_mapping, rule,
+                  ctx.fkey(f, None, "empty-mapping"), f.loc(),
+                  "an empty zone mapping receives the defaults like None",
+                  "process_time_zone_info applies the assumed/local offset "
+                  "only when its argument is None: an empty mapping (what "
+                  "strptime passes for a format without %%z) is returned "
+                  "unchanged and the point silently becomes UTC",
+                  ("C17", "C07"))
     rep.check(not problems, rule, ctx.fkey(f, None, "precedence"), f.loc(),
               "assumed offset, then unknown zone, then local offset (%d "
               "paths)" % n_paths,
